@@ -8,6 +8,7 @@
 #include <eventpp/utilities/scopedremover.h>
 #include <eventpp/utilities/counterremover.h>
 #include <eventpp/utilities/conditionalremover.h>
+#include <map>
 
 #include "common/harness.h"
 #include "common/ledger.h"
@@ -93,6 +94,16 @@ struct PolEx { using ArgumentPassingMode = eventpp::ArgumentPassingExcludeEvent;
 using TList = eventpp::CallbackList<void (int)>;
 using TDisp = eventpp::EventDispatcher<int, void (int), PolEx>;
 using TQueue = eventpp::EventQueue<int, void (int), PolEx>;
+// a user key type: every copy is a fault point and its move constructor may throw, so std::vector relocates it by copying
+struct FKey : LedgeredT<6, true>
+{
+	FKey(int k_ = 0) : LedgeredT<6, true>(kKeyBase + 700 + k_), k(k_) {}
+	int k;
+	friend bool operator == (const FKey & a, const FKey & b) { a.touch(); b.touch(); return a.k == b.k; }
+	friend bool operator < (const FKey & a, const FKey & b) { a.touch(); b.touch(); return a.k < b.k; }
+};
+struct PolExMap { using ArgumentPassingMode = eventpp::ArgumentPassingExcludeEvent; template <typename K, typename V> using Map = std::map<K, V>; };
+using TDispKey = eventpp::EventDispatcher<FKey, void (int), PolExMap>;
 using THList = eventpp::HeterCallbackList<eventpp::HeterTuple<void (int), void (const std::string &)> >;
 using THDisp = eventpp::HeterEventDispatcher<int, eventpp::HeterTuple<void (int), void (const std::string &)> >;
 
@@ -125,6 +136,12 @@ template <typename D> struct AccDisp {
 template <> struct Acc<TDisp> : AccDisp<TDisp> {
 	static void trigger(TDisp & t, int k, int arg, bool) { t.dispatch(k, arg); }
 	template <typename F> static void each(TDisp & t, int k, F f) { t.forEach(k, [&](const Handle & h, const TDisp::Callback &) { f(h); }); }
+	static bool same(const Handle & a, const Handle & b) { return ! a.expired() && ! b.expired() && ! a.owner_before(b) && ! b.owner_before(a); }
+	enum { keys = 1, scoped = 1, queue = 0 };
+};
+template <> struct Acc<TDispKey> : AccDisp<TDispKey> {
+	static void trigger(TDispKey & t, int k, int arg, bool) { t.dispatch(FKey(k), arg); }
+	template <typename F> static void each(TDispKey & t, int k, F f) { t.forEach(k, [&](const Handle & h, const TDispKey::Callback &) { f(h); }); }
 	static bool same(const Handle & a, const Handle & b) { return ! a.expired() && ! b.expired() && ! a.owner_before(b) && ! b.owner_before(a); }
 	enum { keys = 1, scoped = 1, queue = 0 };
 };
@@ -212,7 +229,8 @@ ITarget * makeTarget(int kind)
 	case 1: return new Target<TDisp>();
 	case 2: return new Target<TQueue>();
 	case 3: return new Target<THList>();
-	default: return new Target<THDisp>();
+	case 4: return new Target<THDisp>();
+	default: return new Target<TDispKey>();
 	}
 }
 
@@ -664,8 +682,8 @@ struct Interp
 	void run() {
 		c16 = prop == "C16";
 		int kind = prog.params.empty() ? 0 : prog.params[0];
-		kind = ((kind % 5) + 5) % 5;
-		if(! c16 && kind > 2) kind = kind - 3;
+		kind = ((kind % 6) + 6) % 6;
+		if(! c16 && (kind == 3 || kind == 4)) kind = kind - 3; // the heterogeneous targets have no ScopedRemover
 		impl.reset(makeTarget(kind));
 		lib.p = impl.get();
 		FaultPause harnessCode;
@@ -718,7 +736,7 @@ Grammar makeGrammar(const std::string & prop)
 {
 	Grammar g;
 	const bool c16 = prop == "C16";
-	g.params = { c16 ? ArgSpec(0, 4) : ArgSpec(0, 2), ArgSpec(0, 0) };
+	g.params = { ArgSpec(0, 5), ArgSpec(0, 0) };
 	g.maxDepth = 3;
 	g.maxTotalOps = 120;
 	Level top;
